@@ -118,6 +118,27 @@ Proof.
 Qed.
 Print Assumptions C09_unknown_noop.
 
+(* the worker left alone comes to rest -- one Take/Finish round per outstanding operation -- so the
+   "at rest" clause of C09_legal_sequence is reached from every state: after any schedule of requests
+   and worker steps followed by sco_queue_cap + 1 rounds, every answered transaction shows its complete
+   legal exchange *)
+Theorem C09_every_transaction_completes : forall es n mv,
+  reqs_ok es ->
+  let es' := es ++ drain (S sco_queue_cap) in
+  let s := fst (prun_gen (pinit n mv) es') in
+  let o := snd (prun_gen (pinit n mv) es') in
+  quiescent s = true /\
+  forall id r i, In (id, r) (p_hist s) -> resp_of id o = [Some i] ->
+    tx_legal (i_st i) (part_states (parts_of id o)) = true.
+Proof.
+  intros es n mv Hok es' s o.
+  assert (Hq : quiescent s = true) by apply (drained_quiescent sco_queue_cap dresp_gen direct_raise_resp es n mv).
+  split; [exact Hq|]. intros id r i Hin Hr.
+  destruct (C09_legal_sequence es' n mv (reqs_ok_drain es (S sco_queue_cap) Hok) id r Hin) as (x & Hx & Hm).
+  fold o in Hx. rewrite Hr in Hx. injection Hx as <-. simpl in Hm. apply Hm. exact Hq.
+Qed.
+Print Assumptions C09_every_transaction_completes.
+
 (* ---------------------------------------------------------------- consumer *)
 
 (* The result handle completes exactly once.  From every manager state in which transaction [id] is
